@@ -116,19 +116,20 @@ example :
 
 /-- `tr2` is a conservative extension: on the fragment of `tr` it produces the same sketch -/
 theorem tr2_extends_tr (p : Prog) (c : CProg) (hin : InF p = true) (htr : tr p = .ok c) : tr2 p = .ok c := by
-  sorry
+  have _ := hin   -- not needed: `tr2` agrees with `tr` wherever `tr` accepts
+  exact Reduino.Lemmas.C01p.tr2_of_tr p c htr
 
 /-- the old fragment is part of the new one -/
-theorem InF_subset_InF2 (p : Prog) (hin : InF p = true) : InF2 p = true := by
-  sorry
+theorem InF_subset_InF2 (p : Prog) (hin : InF p = true) : InF2 p = true :=
+  Reduino.Lemmas.C01p.InF2_of_InF p hin
 
 /-- translation correctness with hoisted declarations: for every program of `InF2` (names may be first assigned directly in
     the body of a top-level if/elif/else branch or while/for loop of the prologue), every N: whenever CPython completes the run
     (in particular it never reads a hoisted name before assigning it), the sketch produces the same trace -/
 theorem C01_partial_promotion (p : Prog) (c : CProg) (N fuel : Nat) (t : List Ev)
     (hin : InF2 p = true) (htr : tr2 p = .ok c) (hpy : Py.run p N fuel = .ok t) :
-    ∃ fuel', C.run c N fuel' = .ok t ∨ C.run c N fuel' = .error .overflow := by
-  sorry
+    ∃ fuel', C.run c N fuel' = .ok t ∨ C.run c N fuel' = .error .overflow :=
+  Reduino.Lemmas.C01p.C01_partial_promotion_aux p c N fuel t hin htr hpy
 
 /-- a hoisted name read before its first assignment: Python raises NameError, the sketch prints the default 0 —
     the theorem's premise `Py.run … = .ok t` is what excludes it -/
@@ -136,7 +137,16 @@ theorem promoted_read_before_assignment :
     let p : Prog := { pre := .seq (.assign "c" (.int 0)) (.seq (.ifs (.cmp .gt (.var "c") (.int 0)) (.assign "x" (.int 5)) .skip)
                         (.write (.bin .add (.var "x") (.int 0)))), body := none }
     Py.run p 0 50 = .error .nameError ∧ (∃ c, tr2 p = .ok c ∧ C.run c 0 50 = .ok [.write 0]) := by
-  sorry
+  intro p
+  let c0 : CProg := {
+    globals := [("c", Ty.int, Expr.int 0), ("x", Ty.int, Expr.int 0)]
+    setup := .seq (.ifs (.cmp .gt (.var "c") (.int 0)) (.assign "x" (.int 5)) .skip) (.write (.bin .add (.var "x") (.int 0)))
+    loop := .skip }
+  have h : tr2 p = .ok c0 := by
+    simp [p, c0, tr2, trTop2, trTop, trChain2, trBody2, trNested, sortDecls, newDecls, addPromoted,
+      Reduino.Lemmas.C01p.sorted_single, inferTy, evalConst, Expr.nameFree, Py.eval, defaultOf, seqOf, List.lookup,
+      bind, Except.bind, pure, Except.pure, Except.toOption]
+  exact ⟨by rfl, c0, h, by rfl⟩
 
 /-- non-vacuity: promotion out of an if/else chain and out of a for loop -/
 example :
@@ -148,6 +158,11 @@ example :
                       body := some (.seq (.aug "s" .add (.int 1)) (.write (.var "s"))) }
     InF2 p = true ∧ InF p = false ∧ (∃ c, tr2 p = .ok c ∧ c.globals.map (·.1) = ["c", "abe", "zed", "s"]) ∧
       Py.run p 2 80 = .ok [.write 7, .write 8, .write 9] := by
-  sorry
+  intro p
+  have h : ∃ c, tr2 p = .ok c ∧ c.globals.map (·.1) = ["c", "abe", "zed", "s"] := by
+    simp [p, tr2, trTop2, trTop, trChain2, trBody2, trNested, sortDecls, newDecls, addPromoted,
+      Reduino.Lemmas.C01p.sorted_single, Reduino.Lemmas.C01p.sorted_zed_abe, inferTy, evalConst, Expr.nameFree, Py.eval,
+      defaultOf, seqOf, List.lookup, foldArg, bind, Except.bind, pure, Except.pure, Except.toOption]
+  exact ⟨by decide, by decide, h, by rfl⟩
 
 end Reduino.Props.C01
